@@ -61,6 +61,7 @@ type ident struct {
 	offer  uint32 // last OFFER this identity received
 	ack    uint32 // last ACK
 	xid    uint32
+	prevOffer, prevAck, prevXid []uint32 // what the server may still remember for this client
 }
 
 // Gen generates one history against a live server so that REQUESTs can echo what was really offered.
@@ -189,6 +190,7 @@ func (g *Gen) msg(kind byte, id *ident) Msg {
 
 func (g *Gen) discover(id *ident, newXid bool, req *uint32) string {
 	if newXid {
+		id.prevXid = append(id.prevXid, id.xid)
 		id.xid = xids[g.R.Intn(len(xids))]
 	}
 	m := g.msg('D', id)
@@ -233,6 +235,75 @@ func (g *Gen) selectOfferDev(id *ident, deviate bool) string {
 }
 
 // rival returns another identity, preferring one that shares the MAC or the client identifier.
+func pickOr(r *lib.Rand, l []uint32, d uint32) uint32 {
+	if len(l) == 0 {
+		return d
+	}
+	return l[r.Intn(len(l))]
+}
+
+// roleIP: an address the server remembers (or not) for this client, by role.
+func (g *Gen) roleIP(id *ident) uint32 {
+	o := g.rival(id)
+	switch g.R.Intn(8) {
+	case 0:
+		return id.offer // current offer
+	case 1:
+		return pickOr(g.R, id.prevOffer, id.offer) // a previous offer
+	case 2:
+		return id.ack // current binding
+	case 3:
+		return pickOr(g.R, id.prevAck, id.ack) // a previous binding
+	case 4:
+		return o.offer // another client's offer
+	case 5:
+		return o.ack // another client's binding
+	case 6:
+		return pickOr(g.R, o.prevAck, o.ack)
+	}
+	return g.anyIP()
+}
+
+// roleRequest: a REQUEST assembled from roles: address (7 roles + random) x xid (current, previous, foreign)
+// x server id (ours, another, none: renew or reboot form) x IP source (0, the address, another address of
+// the same client, another client's address, off-LAN) — the IP source is an independent variable.
+func (g *Gen) roleRequest(id *ident) string {
+	r := g.R
+	m := g.msg('R', id)
+	a := g.roleIP(id)
+	switch r.Intn(3) {
+	case 1:
+		m.Xid = pickOr(r, id.prevXid, id.xid)
+	case 2:
+		m.Xid = id.xid ^ 0x0f0f0f0f
+	}
+	switch r.Intn(4) {
+	case 0, 1:
+		m.Req, m.Sid = p32(a), p32(g.C.HostIP)
+	case 2:
+		m.Req, m.Sid = p32(a), p32(g.C.RouterIP)
+	default:
+		if r.Bool() {
+			m.Ciaddr = a // renew / rebind form
+		} else {
+			m.Req = p32(a) // reboot form
+		}
+	}
+	switch r.Intn(6) {
+	case 0, 1:
+		m.Src = 0
+	case 2:
+		m.Src = a
+	case 3:
+		m.Src = pickOr(r, append(append([]uint32{}, id.prevAck...), id.offer, id.ack), a) // another address of this client
+	case 4:
+		m.Src = g.rival(id).ack
+	default:
+		m.Src = 0x08080808
+	}
+	return m.Token()
+}
+
 func (g *Gen) rival(id *ident) *ident {
 	var near, all []*ident
 	for _, o := range g.ids {
@@ -307,6 +378,13 @@ func (g *Gen) next() string {
 				func() string { return g.selectOffer(id) }}, g.queue...)
 		}
 		return g.next()
+	case k < 7 && id.ack != 0: // script: a bound client DISCOVERs again twice (old binding re-offered, then a new offer), then REQUESTs by role
+		g.queue = append(g.queue,
+			func() string { return g.discover(id, r.Bool(), nil) },
+			func() string { return g.discover(id, true, nil) },
+			func() string { return g.roleRequest(id) },
+			func() string { return g.roleRequest(id) })
+		return g.next()
 	case k < 10: // script: two clients hold the same pending offer, then both REQUEST it
 		other := g.rival(id)
 		g.queue = append(g.queue,
@@ -362,6 +440,9 @@ func (g *Gen) next() string {
 		}
 		return m.Token()
 	case k < 70: // REQUEST
+		if r.Chance(35) {
+			return g.roleRequest(id)
+		}
 		m := g.msg('R', id)
 		m.Prl = g.anyPRL()
 		m.Bflag = r.Chance(20)
@@ -480,8 +561,14 @@ func (g *Gen) play(depth int) []string {
 		if rp != nil && g.cur != nil {
 			switch rp.Type {
 			case 2:
+				if g.cur.offer != 0 && g.cur.offer != rp.Yi {
+					g.cur.prevOffer = append(g.cur.prevOffer, g.cur.offer)
+				}
 				g.cur.offer = rp.Yi
 			case 5:
+				if g.cur.ack != 0 && g.cur.ack != rp.Yi {
+					g.cur.prevAck = append(g.cur.prevAck, g.cur.ack)
+				}
 				g.cur.ack = rp.Yi
 			}
 		}
@@ -887,5 +974,75 @@ func CfgGrid(r *lib.Run) {
 		args := append(append(c.Tokens(), c.Tokens()...), d1, s1, "|", renew, d2, "C,"+hxmac(m2), d2)
 		r.Do("restart", args...)
 		r.Stat("class.cfg-grid", 2)
+	}
+}
+
+// RoleSweep: bounded-exhaustive REQUESTs by symbolic role after a fixed prefix.  Client A acquires W, declines it,
+// acquires X, DISCOVERs again (X re-offered), DISCOVERs with a new xid (Y offered); client B holds a binding,
+// client C a pending offer.  Then ONE request of A for every combination of address role {current offer Y, previous
+// offer / current binding X, previous binding W, B's binding, C's offer, a free pool address, 0} x xid {last, previous,
+// foreign} x form {server id ours, another server, none+requested (reboot), none+ciaddr (renew)} x IP source {0, the
+// address, X, A's other tracked address W, B's address, off-LAN}; with claim, B has meanwhile sent a frame with IP source X.
+func RoleSweep(r *lib.Run, cfgIdx, mode int, claim bool, rediscover bool) {
+	c := StdCfg(cfgIdx, mode)
+	mA, mB, mC := net.HardwareAddr{2, 0, 0, 0, 0, 1}, net.HardwareAddr{2, 0, 0, 0, 0, 2}, net.HardwareAddr{2, 0, 0, 0, 0, 3}
+	sv := NewServer(c)
+	if sv == nil {
+		return
+	}
+	sv.Shared = make([]byte, 1514)
+	var prefix []string
+	yi := func(tok string) uint32 {
+		prefix = append(prefix, tok)
+		_, rp := sv.Step(tok)
+		if rp == nil {
+			return 0
+		}
+		return rp.Yi
+	}
+	sel := func(mac net.HardwareAddr, xid, a uint32) string {
+		return Msg{Kind: 'R', Chaddr: mac, Xid: xid, Req: &a, Sid: &c.HostIP}.Token()
+	}
+	b1 := yi(Msg{Kind: 'D', Chaddr: mB, Xid: 0x0b0b0b0b}.Token())
+	yi(sel(mB, 0x0b0b0b0b, b1))
+	w := yi(Msg{Kind: 'D', Chaddr: mA, Xid: 0x0a0a0a00}.Token())
+	yi(sel(mA, 0x0a0a0a00, w))
+	yi(Msg{Kind: 'X', Chaddr: mA, Xid: 0x0a0a0a00, Req: &w, Sid: &c.HostIP}.Token())
+	c1 := yi(Msg{Kind: 'D', Chaddr: mC, Xid: 0x0c0c0c0c}.Token())
+	x := yi(Msg{Kind: 'D', Chaddr: mA, Xid: 0x0a0a0a01}.Token())
+	yi(sel(mA, 0x0a0a0a01, x))
+	if claim { // another MAC shows up with A's address as IP source: the session now tracks X for B's MAC
+		yi(Msg{Kind: 'L', Chaddr: mB, Xid: 0x0b0b0b0b, Ciaddr: x, Src: x}.Token())
+	}
+	y := x
+	if rediscover { // else A is still bound (state Allocated) when it sends the request
+		yi(Msg{Kind: 'D', Chaddr: mA, Xid: 0x0a0a0a02}.Token())
+		y = yi(Msg{Kind: 'D', Chaddr: mA, Xid: 0x0a0a0a03}.Token())
+	}
+	sv.Close()
+	_, last := c.lan(false)
+	addrs := []uint32{y, x, w, b1, c1, last - 1, 0}
+	xs := []uint32{0x0a0a0a03, 0x0a0a0a02, 0x99999999}
+	for _, a := range addrs {
+		for _, xid := range xs {
+			for form := 0; form < 4; form++ {
+				for _, src := range []uint32{0, a, x, w, b1, 0x08080808} { // w: another LAN address the session tracks for A
+					m := Msg{Kind: 'R', Chaddr: mA, Xid: xid, Src: src}
+					aa := a
+					switch form {
+					case 0:
+						m.Req, m.Sid = &aa, &c.HostIP
+					case 1:
+						m.Req, m.Sid = &aa, &c.RouterIP
+					case 2:
+						m.Req = &aa
+					default:
+						m.Ciaddr = a
+					}
+					r.Do("hist", append(append(c.Tokens(), prefix...), m.Token())...)
+					r.Stat("class.role-sweep", 1)
+				}
+			}
+		}
 	}
 }
